@@ -1216,3 +1216,72 @@ Section PlanProofs.
     Proof. intros Hl. destruct plan_properties as (_ & _ & _ & _ & _ & H). now apply H. Qed.
   End Model.
 End PlanProofs.
+
+(* ============================================================= liveness read twice *)
+Lemma NoDup_map_filter {A B} (f : A -> B) (p : A -> bool) l : NoDup (map f l) -> NoDup (map f (filter p l)).
+Proof.
+  induction l as [|x r IH]; intros H; [constructor|]. cbn [map] in H. inversion H as [|? ? Hx Hr]; subst.
+  cbn [filter]. destruct (p x); [|auto]. cbn [map]. constructor; [|auto].
+  intros C. apply Hx. apply in_map_iff in C. destruct C as (y & Ey & Hy). apply filter_In in Hy.
+  apply in_map_iff. exists y. tauto.
+Qed.
+
+Section TwoReads.
+  Variables (dcf rackf : N -> option N) (g : ring N) (keyspaces : list (N * strategy)).
+  Variables (en1 co1 en2 co2 : N -> bool) (shf : N -> N) (pol : policy) (rq : request).
+  Hypothesis Hs : sorted_weak g.
+  Hypothesis Hk : forall k s, ks_lookup keyspaces k = Some s -> nts_keys_ok s.
+  Variables (cho : nat -> nat -> nat) (shuf : nat -> list N -> list N).
+  Hypothesis Hshuf : forall site l, Permutation (shuf site l) l.
+  Hypothesis Hcho : forall site len, (0 < len)%nat -> (cho site len < len)%nat.
+
+  (* what survives a liveness change between pick() and fallback(): the first target is an
+     acceptable pick for the liveness pick() saw; the rest is the fallback plan of the later
+     liveness (accepted as a whole) with at most the picked target removed; so every node is
+     enabled at the time it was chosen and permitted (host filter, locality), and the rest has
+     no node twice *)
+  Theorem two_reads_safe p tl :
+    plan_two_reads dcf rackf g keyspaces en1 co1 en2 co2 shf pol rq cho shuf = Some (p :: tl) ->
+    pick_matches dcf rackf g keyspaces en1 co1 pol rq (Some (fst p)) = true /\
+    plan_matches dcf rackf g keyspaces en2 co2 pol rq
+      (map fst (fallback dcf rackf g keyspaces en2 co2 shf pol rq cho shuf)) = true /\
+    (en1 (fst p) = true /\ permitted dcf g pol rq (fst p) = true) /\
+    (forall n, In n (map fst tl) -> en2 n = true /\ permitted dcf g pol rq n = true) /\
+    NoDup (map fst tl).
+  Proof.
+    unfold plan_two_reads. pose proof (pick_matches_model dcf rackf g keyspaces en1 co1 shf pol rq Hs Hk cho shuf Hshuf Hcho) as Hp.
+    pose proof (fallback_matches dcf rackf g keyspaces en2 co2 shf pol rq Hs Hk cho shuf Hshuf) as Hf.
+    destruct (pick dcf rackf g keyspaces en1 co1 shf pol rq cho) as [q|]; [|discriminate].
+    intros [= <- <-]. cbn [option_map] in Hp. split; [assumption|]. split; [assumption|].
+    pose proof (plan_matches_sound dcf rackf g keyspaces en2 co2 shf pol rq _ Hf) as (F1 & F2 & F3 & _).
+    pose proof (plan_matches_ring dcf rackf g keyspaces en2 co2 shf pol rq _ Hf) as F4.
+    split; [|split].
+    - destruct (pick_matches_sound dcf rackf g keyspaces en1 co1 shf pol rq (fst q) Hp) as (H8 & _).
+      eapply grp_lt8_ok; eassumption.
+    - intros n Hn. apply in_map_iff in Hn. destruct Hn as (x & <- & Hx). apply filter_In in Hx. destruct Hx as [Hx _].
+      assert (Hin : In (fst x) (map fst (fallback dcf rackf g keyspaces en2 co2 shf pol rq cho shuf))) by now apply in_map.
+      split; [now apply F2|]. apply permitted_spec. split; [now apply F4|]. intros d Hd Hfo. now apply (F3 d Hd Hfo).
+    - apply NoDup_map_filter. exact F1.
+  Qed.
+End TwoReads.
+
+(* ---- ... and what does not: the same node twice, order / completeness of either snapshot ---- *)
+Definition tw_g : ring N := [(10, 1%N); (20, 2%N)].
+Definition tw_ks : list (N * strategy) := [(0%N, Simple 1)].
+Definition tw_pol := {| pol_pref := None; pol_token_aware := true; pol_failover := false |}.
+Definition tw_rq := {| rq_token := Some 5; rq_ks := Some 0%N; rq_lwt := false; rq_pref := PAny |}.
+Definition tw_up (_ : N) : bool := true.
+Definition tw_co2 (n : N) : bool := negb (N.eqb n 1).        (* node 1 loses its connections *)
+Definition tw_plan : option (list target) :=
+  plan_two_reads (fun _ => None) (fun _ => None) tw_g tw_ks tw_up tw_up tw_up tw_co2 (fun _ => 0%N) tw_pol tw_rq
+                 (fun _ _ => 0%nat) (fun _ l => l).
+
+Lemma two_reads_refuted :
+  exists p, tw_plan = Some p /\ map fst p = [1; 2; 1]%N /\ ~ NoDup (map fst p) /\
+    plan_matches (fun _ => None) (fun _ => None) tw_g tw_ks tw_up tw_up tw_pol tw_rq (map fst p) = false /\
+    plan_matches (fun _ => None) (fun _ => None) tw_g tw_ks tw_up tw_co2 tw_pol tw_rq (map fst p) = false.
+Proof.
+  eexists. split; [vm_compute; reflexivity|]. split; [reflexivity|]. split; [|split; vm_compute; reflexivity].
+  cbn [map fst]. intros H. inversion H as [|? ? Hx _]; subst. apply Hx. right. now left.
+Qed.
+
